@@ -23,8 +23,9 @@ RULE = ("stub kernels: 1-3 consecutive event() calls on one kernel object (event
         "particles (roots and children, particles sharing a vertex, the same Particle object twice), 1-3 antennas, "
         "tracer table none | 0..3 paths per (vertex, antenna), signal model refusing some (particle, path) pairs, "
         "aliasing probes (received signals / writer lists must not share or later change state), viewing angles "
-        "at -30..+100 degrees from the Cherenkov angle, weights in {None, 1/16, 1/4, 1/2, 1} and forced weights against weight_min in {None, 0.1, 0.25, 0.5, "
-        "(0.5,0.5), (0.25,0.75)}, offcone_max in {None, 5, 20}, triggers none | function | dict, writer on/off, "
+        "at -30..+100 degrees from the Cherenkov angle, weights in {None, 0.0, -0.0, numpy 0.0, int 0, 1/16, "
+        "1/4, 1/2, 1} (exact zeros, values equal to the cut) and forced weights against weight_min in {None, 0, 0.1, "
+        "0.25, 0.5, (0.5,0.5), (0.25,0.75), (0,0.5), (0.25,0), (1/16,1/16)}, offcone_max in {None, 5, 20}, triggers none | function | dict, writer on/off, "
         "real kernels (two consecutive events each; list/file events have particles sharing a vertex and repeated "
         "Particle objects): {Specialized, Basic, Uniform(+UniformIce), "
         "Layered(+LayeredIce)} x {ARZ, AVZ, ZHS} x {Cylindrical, Rectangular, List, File} x offcone {None,5} x "
@@ -422,14 +423,15 @@ def model_view(reply, has_writer):
 def gen_stub_event(rng, nant, theta_c):
     np = _np()
     npart = rng.randint(1, 4)
-    wpool = [None, 1 / 16, 1 / 4, 1 / 2, 1.0]
+    # None, exact zeros of every flavour (0.0, -0.0, numpy scalar, int), values equal to the cuts (1/4, 1/2)
+    wpool = [None, None, 0.0, -0.0, np.float64(0.0), 0, 1 / 16, 1 / 4, 1 / 2, np.float64(0.5), 1.0, 1]
     nvid = rng.randint(1, max(1, npart - 1))          # fewer vertices than particles: shared vertices
     particles = []
     for k in range(npart):
         b = rng.choice([(0.0, 0.0, 1.0), (1.0, 0.0, 0.0), (0.0, 0.0, -1.0)])
         d = tuple(x + 0.013 * (k + 1) * y for x, y in zip(b, (0.3, 0.5, 0.2)))     # all directions distinct
         particles.append({"id": k + 1, "vid": rng.randint(1, nvid), "sw": rng.choice(wpool), "iw": rng.choice(wpool),
-                          "forced": rng.choice([None, None, None, 1 / 8, 1.0]), "dir": d, "base": b,
+                          "forced": rng.choice([None, None, None, None, 0.0, 1 / 8, 1 / 4, 1.0]), "dir": d, "base": b,
                           "parent": None if k == 0 or rng.random() < 0.6 else rng.randint(1, k), "dup_of": None})
     if rng.random() < 0.3:                             # the same Particle object once more, as a root
         src = rng.choice(particles)
@@ -486,7 +488,8 @@ def gen_stub_case(rng):
     n = rng.randint(2, 5)
     t0 = rng.randint(-8, 8) / 4.0
     return {"nant": nant, "events": events, "times": [t0 + 0.25 * j for j in range(n)],
-            "wmin": rng.choice([None, 0.1, 0.25, 0.5, (0.5, 0.5), (0.25, 0.75)]),
+            "wmin": rng.choice([None, 0.0, 0.1, 0.25, 0.5, (0.5, 0.5), (0.25, 0.75), (0.0, 0.5), (0.25, 0.0),
+                                (1 / 16, 1 / 16)]),
             "offcone": rng.choice([None, 5, 20]), "interp": rng.choice([None, 0.1]),
             "trig": trig, "writer": rng.random() < 0.7}
 
@@ -559,28 +562,32 @@ class RealSetup:
     def close(self):
         shutil.rmtree(self.tmp, ignore_errors=True)
 
-    def list_events(self, rng):
+    def list_events(self, rng, light=False):
         """multi-particle events: particles of one interaction share a vertex, and one Particle object
-        may appear twice in an event"""
+        may appear twice in an event.  `light`: two particles (+ repeat) only - every on-cone pulse costs
+        ~0.3 s in Antenna.receive (deep copy of the propagated FunctionSignal), which matters when nothing is cut"""
         import pyrex
+        np = _np()
         evs = []
         for k in range(2):
             verts = [(rng.uniform(40, 160), rng.uniform(-60, 60), rng.choice([-300.0, -450.0, -900.0]))
                      for _ in range(2)]
             ps = []
-            for j in range(3):
+            for j in range(2 if light else 3):
                 p = pyrex.Particle("nu_e", vertex=verts[0] if j < 2 else verts[1],
                                    direction=(rng.uniform(-1, 1), rng.uniform(-1, 1), rng.uniform(-1, 0.2)),
                                    energy=10 ** rng.uniform(8, 8.7), interaction_type="cc")
-                p.survival_weight = rng.choice([1.0, 0.6, 0.05])
-                p.interaction_weight = rng.choice([1.0, 0.7, 0.3])
+                # incl. exact zeros (what Generator.get_weights yields when exp(-x) underflows) and values equal
+                # to the cuts used in the sweep (0.1 scalar, (0.5, 0.5) pair)
+                p.survival_weight = rng.choice([1.0, 0.6, 0.05, 0.0, np.float64(0.0), -0.0, 0.5, 0.1, None])
+                p.interaction_weight = rng.choice([1.0, 0.7, 0.3, 1.0, 0.0, 0.5, None])
                 ps.append(p)
-            if rng.random() < 0.5:
-                ps.append(ps[rng.randrange(3)])
+            if rng.random() < (0.3 if light else 0.5):
+                ps.append(ps[rng.randrange(len(ps))])
             evs.append(pyrex.Event(ps))
         return evs
 
-    def generator(self, kind, rng):
+    def generator(self, kind, rng, light=False):
         np = _np()
         from pyrex.generation import CylindricalGenerator, RectangularGenerator, ListGenerator, FileGenerator
         from pyrex.io import File
@@ -589,11 +596,11 @@ class RealSetup:
         if kind == "rect":
             return RectangularGenerator(500, 400, 900, lambda: 10 ** np.random.uniform(8, 10))
         if kind == "list":
-            return ListGenerator(self.list_events(rng))
+            return ListGenerator(self.list_events(rng, light))
         if self.file is None:
             self.file = os.path.join(self.tmp, "events.h5")
             with File(self.file, "w", write_rays=False, write_triggers=False, require_trigger=False) as f:
-                for ev in self.list_events(rng) + self.list_events(rng):
+                for ev in self.list_events(rng, True) + self.list_events(rng, False):
                     f.add(ev)
         return FileGenerator(self.file)
 
@@ -658,8 +665,6 @@ def run_real(setup, combo, rng, nev=2):
     tname, sname, gname, offc, wmin, interp, has_writer, tkind = combo
     tracer, ice = setup.tracers[tname]
     sm = setup.signals[sname]
-    if gname == "list" and offc is None:
-        nev = 1          # many on-cone pulses: Antenna.receive deep-copies the propagated FunctionSignals (slow)
 
     class RecAntenna(pyrex.Antenna):
         def __init__(self, pos):
@@ -690,7 +695,7 @@ def run_real(setup, combo, rng, nev=2):
             pass
     ants = [RecAntenna((0, 0, -100)), RecAntenna((15, 5, -160)), RecAntenna((0, 0, 40))]
     np.random.seed(rng.randrange(2 ** 31))
-    gen = setup.generator(gname, rng)
+    gen = setup.generator(gname, rng, light=offc is None)
     writer = Writer() if has_writer else None
     f1 = lambda d: len(d[0].signals) >= 1            # the model's `G 0 1`
     f2 = lambda d: len(d[1].signals) >= 1            # the model's `G 1 1`
@@ -1067,7 +1072,7 @@ def search(run, deep):
     setup = RealSetup(run.seed)
     try:
         combos = all_combos()
-        chosen = run.rng.sample(combos, 20 if not deep else 150)   # the correspondence run enumerates the product
+        chosen = run.rng.sample(combos, 20 if not deep else 60)   # the correspondence run enumerates the product
         for combo in chosen:
             why = real_oracle(setup, combo, run.rng)
             run.case(("real-oracle", combo, run.rng.random()))
